@@ -6,7 +6,8 @@ CONFIG = {'level': 'proof',
  'timeout': {'quick': 1500, 'thorough': 7200},
  'assumptions': ['"no code path anywhere relies on wrap-around" is not a theorem: proved per modelled arithmetic site '
                  '(k-mer shifts/adds, raw_length - k, tuple unpacking, LZ encoder indices, repaired archive reader, '
-                 'container offsets, zigzag, priority counter, capacity parsing); everything else is covered only as '
+                 'container offsets, zigzag, priority counter, capacity parsing, the k-mer mask of the fallback-minimizer '
+                 'scans (D14, found by the thorough tier of this check)); everything else is covered only as '
                  'far as the two-profile differential run reaches',
                  "the overflow-checked build is the harness profile 'checked' (release optimisation + overflow-checks + "
                  'debug-assertions) and the dev-profile CLI binary'],
@@ -17,7 +18,7 @@ MANIFEST = {'category': 'proof',
          'coincide on the function domains (k-mer insert/reverse complement for k 1..32, raw_length - k under archive '
          'well-formedness, tuple unpacking, LZ encoder totality, the repaired Archive::open for all byte strings, '
          'container offsets in both profiles, zigzag, the i32 priority counter and sync-token priorities incl. the '
-         'negation witness for the repaired +1_000_000 rule, checked capacity parsing). Tied to the code by running '
+         'negation witness for the repaired +1_000_000 rule, checked capacity parsing, the fallback k-mer mask with the negation witness old_mask_k32). Tied to the code by running '
          'the C01/C04 case streams (create through the library exactly as main.rs, extraction, length/range queries) '
          'under the release profile and under the overflow-checked profile: archives must be byte-identical, '
          'extractions equal, no arithmetic panic; and the release and dev CLI binaries on thread/capacity/single-file '
